@@ -91,6 +91,10 @@ static bool should_fail(void* fp) {
   }
   return f;
 }
+static bool too_big(size_t size) {
+  if (size <= g_alloc.max_block) return false;
+  __atomic_add_fetch(&g_alloc.huge_refused, 1, __ATOMIC_SEQ_CST); errno = ENOMEM; return true;
+}
 static void record(void* p, size_t size, void* fp) {
   if (!g_alloc.track) return;
   SimAllocRec r; r.size = size; r.op = g_alloc.cur_op;
@@ -119,6 +123,7 @@ extern "C" {
 void* sim_malloc(size_t size) {
   if (g_sync.yield) g_sync.yield(YK_ALLOC, __builtin_return_address(0));
   if (should_fail(__builtin_frame_address(0))) return NULL;
+  if (too_big(size)) return NULL;
   void* p = malloc(size + g_alloc.pad);
   if (!p) return NULL;
   junk_fill(p, size + g_alloc.pad);
@@ -130,6 +135,7 @@ void* sim_calloc(size_t n, size_t size) {
   if (should_fail(__builtin_frame_address(0))) return NULL;
   size_t total;
   if (__builtin_mul_overflow(n, size, &total)) { errno = ENOMEM; return NULL; }
+  if (too_big(total)) return NULL;
   void* p = malloc(total + g_alloc.pad);
   if (!p) return NULL;
   memset(p, 0, total);
@@ -148,6 +154,7 @@ void* sim_realloc(void* old, size_t size) {
   if (!old) {
     if (g_sync.yield) g_sync.yield(YK_ALLOC, __builtin_return_address(0));
     if (should_fail(__builtin_frame_address(0))) return NULL;
+    if (too_big(size)) return NULL;
     void* p = malloc(size + g_alloc.pad);
     if (!p) return NULL;
     junk_fill(p, size + g_alloc.pad);
@@ -157,6 +164,7 @@ void* sim_realloc(void* old, size_t size) {
   if (size == 0) { sim_free(old); return NULL; }
   if (g_sync.yield) g_sync.yield(YK_ALLOC, __builtin_return_address(0));
   if (should_fail(__builtin_frame_address(0))) return NULL;   // old block stays valid, as realloc promises
+  if (too_big(size)) return NULL;
   size_t oldsz = (size_t) -1;
   if (g_alloc.track) {
     pthread_mutex_lock(&g_tab_mu);
@@ -391,6 +399,7 @@ IsoResult sim_isolate(const std::function<void()>& fn, int timeout_s) {
     g_iso_fd = po[1];
     fn();
     fflush(stderr);
+    iso_emit("\x02" "DONE\n");     // explicit completion marker: recoverable UBSan reports may change the exit code
     _exit(0);
   }
   close(po[1]); close(pe[1]);
@@ -415,7 +424,10 @@ IsoResult sim_isolate(const std::function<void()>& fn, int timeout_s) {
   if (timed_out) kill(pid, SIGKILL);
   for (int i = 0; i < 2; i++) if (pf[i].fd >= 0) close(pf[i].fd);
   int st = 0; waitpid(pid, &st, 0);
+  bool done = false;
+  { size_t m = r.out.rfind("\x02" "DONE\n"); if (m != std::string::npos && m + 6 == r.out.size()) { done = true; r.out.resize(m); } }
   if (timed_out) { r.kind = 3; r.code = 0; }
+  else if (done && !WIFSIGNALED(st)) { r.kind = 0; r.code = 0; return r; }
   else if (WIFSIGNALED(st)) { r.kind = 2; r.code = WTERMSIG(st); }
   else if (WIFEXITED(st)) { r.code = WEXITSTATUS(st); r.kind = r.code == 0 ? 0 : (r.code == 77 ? 1 : 4); }
   if (r.kind != 0 && r.kind != 3 && (r.err.find("ERROR: AddressSanitizer") != std::string::npos || r.err.find("runtime error:") != std::string::npos)) r.kind = 1;
